@@ -96,6 +96,11 @@ use crate::{
 
 mod bundle_factory;
 
+/// Deterministic-simulation harness (hook H4, off by default).
+#[cfg(all(test, feature = "verif"))]
+#[path = "/verif/harness/composer/mod.rs"]
+mod verif;
+
 pub(crate) mod builder;
 
 pub(crate) use builder::Builder;
